@@ -200,7 +200,10 @@ func c13RoundRobin(c *Ctx) {
 		return
 	}
 	// cursor phis: integer phis in the loop headers named i
-	isOne := func(v ssa.Value) bool { k, ok := v.(*ssa.Const); return ok && k.Value != nil && constant.Compare(k.Value, token.EQL, constant.MakeInt64(1)) }
+	isOne := func(v ssa.Value) bool {
+		k, ok := v.(*ssa.Const)
+		return ok && k.Value != nil && constant.Compare(k.Value, token.EQL, constant.MakeInt64(1))
+	}
 	// the cursor: integer phis (at the loop heads) that are used, directly or after `+ 1`, as the left operand of
 	// `… % len(members)` in the index of a candidate assignment — whatever the variable is called
 	cursorPhis := map[*ssa.Phi]bool{}
